@@ -213,6 +213,25 @@ def gen_c07(rnd, n, thorough=False):
                 lines.append('sync %s' % nm)
                 lines.append('open %s' % nm)
                 lines.append('hdr %s' % nm)
+        # lists built from values that were already part of another list (laid out by NewHeader, by
+        # the parser, by a created and reopened file): acceptance depends on the list alone
+        for _ in range(3):
+            first = rnd.pick([[(1, 10), (10, 10)], [(1, 60), (5, 60), (60, 20)], [(2, 30)], [(1, 8), (2, 16), (4, 16), (16, 16)], [(60, 1440), (3600, 168)]])
+            j = rnd.randint(1, len(first) + 1)
+            items = []
+            for q in range(j):
+                r = rnd.random()
+                if r < 0.5 and q < len(first):
+                    items.append('o%d' % q)
+                elif r < 0.65:
+                    items.append('o%d' % rnd.randrange(len(first)))
+                else:
+                    ps, pn = first[min(q, len(first) - 1)]
+                    items.append('n%d:%d' % (ps * rnd.pick([1, 2, 3, 10]), pn * rnd.pick([1, 2, 3]) + rnd.pick([0, 0, 1])))
+            if not any(i.startswith('o') for i in items):
+                items[0] = 'o0'
+            add('reuse', 'reuse %s %d %08x %s | %d %s' % (rnd.pick(['newheader', 'parse', 'create']), rnd.pick([1, 2, 3]), rnd.pick(XFF_VALID),
+                                                       fmt_layout(first), len(items), ' '.join(items)))
         # retention strings whose step or retention does not fit 31 / 32 bits (count x unit around 2^31, 2^32, 2^33)
         units = {'s': 1, 'm': 60, 'h': 3600, 'd': 86400, 'w': 604800, 'y': 31536000}
         for _ in range(4):
